@@ -839,8 +839,21 @@ func srGenInput(c *Ctx, i int, wellFormed bool) *srInput {
 		j := 1 + rng.Intn(len(in.auth)-1)
 		in.auth = append(append([]gmsl.PDU{}, in.auth[:j]...), in.auth[j+1:]...)
 	}
+	if srAlgo(ver) == gmsl.StateResV1 {
+		// ResolveStateConflicts documents its auth events as the unconflicted auth events
+		// (one per state key); with conflicted keys among them its result depends on the
+		// iteration order of a Go map.
+		_, un := srOldSplit(all)
+		in.auth = nil
+		for _, e := range un {
+			switch e.Type() {
+			case spec.MRoomCreate, spec.MRoomPowerLevels, spec.MRoomJoinRules, spec.MRoomMember, spec.MRoomThirdPartyInvite:
+				in.auth = append(in.auth, e)
+			}
+		}
+	}
 	rng.Shuffle(len(in.auth), func(a, b int) { in.auth[a], in.auth[b] = in.auth[b], in.auth[a] })
-	if !wellFormed && rng.Intn(8) == 0 {
+	if !wellFormed && rng.Intn(8) == 0 && srAlgo(ver) != gmsl.StateResV1 {
 		s := rng.Intn(len(in.sets))
 		switch rng.Intn(3) {
 		case 0: // drop an event from one set
